@@ -1198,7 +1198,7 @@ def partial_operations(fn: Func):
     return out
 
 
-def rule_swallowed_regions(ctx: Ctx, clause: str, rule="EV.swallowed", min_regions=1, depth=2):
+def rule_swallowed_regions(ctx: Ctx, clause: str, rule="EV.swallowed", min_regions=0, depth=2):
     """Where the step path wraps work in a catch-everything handler that carries on silently, whatever the work was
     meant to record is lost without a trace when it raises. The repository has one such region (the pickup report in
     pick_up_trip); the functions it calls must contain no operation that raises on part of its well-typed domain."""
